@@ -220,7 +220,8 @@ def make_case(rng):
     r = rng.random()
     if r < 0.55:
         family = "L"
-        spec, meta = F.family_L(rng, unit_root=bool(rng.random() < 0.35), measurement=bool(rng.random() < 0.7))
+        ur = bool(rng.random() < 0.35)
+        spec, meta = F.family_L(rng, unit_root=ur, measurement=bool(rng.random() < 0.7), persistent=(not ur and rng.random() < 0.3))
         steady = None
     elif r < 0.85:
         family = "N"
